@@ -158,6 +158,11 @@ func c02GenAnswer(rng *rand.Rand, qname string, qtype uint16) (rrs []dns.RR) {
 		if rng.Intn(4) == 0 {
 			t = dns.Fqdn(c01MixCase(rng, strings.TrimSuffix(t, ".")))
 		}
+		if rng.Intn(6) == 0 {
+			// A target that is a legal DNS name but not a strict host name
+			// (underscore or asterisk labels, a label of 63 characters).
+			t = []string{"edge_1.", "_dmarc.", "a_b-c.", "*.", strings.Repeat("x", 63) + "."}[rng.Intn(5)] + t
+		}
 		rrs = append(rrs, &dns.CNAME{Hdr: hdr(owner, dns.TypeCNAME), Target: t})
 		owner = t
 	}
